@@ -924,6 +924,16 @@ func (g *Gen) processBlock(b *ssa.BasicBlock) {
 			for phi, t := range phiEntry {
 				g.def(phi, t)
 			}
+			// canary: the first block of a loop body must be reachable under the invariants (a contradictory
+			// invariant, or a contract that makes the loop dead, would make every obligation inside vacuous)
+			if *flagCanary && len(b.Preds) == 1 {
+				if li := g.loops[b.Preds[0]]; li != nil && li.body[b] {
+					a, pos := g.anchorForLoop(li)
+					_ = a
+					o := g.addObl(st, "V", fmt.Sprintf("loop%d:body-reachable", li.ordinal), pos, g.allProps(), "false", "canary: the loop body can be entered under the invariants")
+					o.MustBeSat = true
+				}
+			}
 		}
 		g.in[b] = st
 	}
@@ -986,27 +996,7 @@ func (g *Gen) loopEnv(li *loopInfo, heap Heap, phiVals map[*ssa.Phi]string) *Env
 	// values defined before the loop and named in the source that dominate the header: the closest
 	// dominator wins (a phi named after the variable, or the last DebugRef of the variable in that block)
 	g.namedValues(li.header.Idom(), env)
-	for b, names := range g.debugAddrs {
-		if b != li.header && b.Dominates(li.header) {
-			for n, al := range names {
-				// an address-taken local is always named through its cell (`*name`), even if some block
-				// also has a DebugRef for a value loaded from it
-				ref, ok := g.vals[al]
-				if !ok {
-					continue
-				}
-				et := deref(al.Type())
-				if isStruct(et) {
-					env.vars[n] = EnvVal{term: ref, ty: VType{Go: al.Type()}}
-					continue
-				}
-				if _, isArr := et.Underlying().(*types.Array); isArr {
-					continue
-				}
-				env.vars[n] = EnvVal{term: "0", ty: VType{Go: al.Type()}, loc: &Loc{Kind: "cell", Region: g.cellRegion(et), Ref: ref, Type: et, Fresh: true}}
-			}
-		}
-	}
+	g.addrNames(li.header, false, env)
 	if li.iterRegion != "" {
 		env.visited = g.heapGet(heap, g.regions[li.iterRegion])
 		env.visitedRegion = g.regions[li.iterRegion]
@@ -1278,6 +1268,32 @@ func (g *Gen) namedValues(b *ssa.BasicBlock, env *Env) {
 			if _, ok := env.vars[n]; !ok {
 				env.vars[n] = ev
 			}
+		}
+	}
+}
+
+// addrNames: address-taken locals declared in blocks dominating at (at itself included if self) are named
+// through their cell (`*name`; a struct variable by its name), even if some block also has a DebugRef for a
+// value loaded from them.
+func (g *Gen) addrNames(at *ssa.BasicBlock, self bool, env *Env) {
+	for b, names := range g.debugAddrs {
+		if (b == at && !self) || !b.Dominates(at) {
+			continue
+		}
+		for n, al := range names {
+			ref, ok := g.vals[al]
+			if !ok {
+				continue
+			}
+			et := deref(al.Type())
+			if isStruct(et) {
+				env.vars[n] = EnvVal{term: ref, ty: VType{Go: al.Type()}}
+				continue
+			}
+			if _, isArr := et.Underlying().(*types.Array); isArr {
+				continue
+			}
+			env.vars[n] = EnvVal{term: "0", ty: VType{Go: al.Type()}, loc: &Loc{Kind: "cell", Region: g.cellRegion(et), Ref: ref, Type: et, Fresh: true}}
 		}
 	}
 }
